@@ -589,6 +589,10 @@ func genC08(seed uint64, idx int) *Plan {
 		bad := h.Base.Target
 		bad.KeySeed += 9001
 		bad.BadPriv = true
+		if (idx/10)%3 == 2 {
+			// ... or is a zero Key altogether
+			bad.BadPriv, bad.BadConfig, bad.Empty = false, true, true
+		}
 		h.Base.Keys = append([]KeySpec{bad}, h.Base.Keys...)
 		h.NoKeys, h.Muts, h.RawFirst = false, nil, nil
 		return &Plan{Kind: "hostile", Seed: seed, Hostile: h}
